@@ -1008,6 +1008,20 @@ func xgenSpacing(g *Gen) {
 		g.Emit("%s g00 s:e s:- n:5", op)
 		g.Count("excluded-adjacency-probes")
 	}
+	// LexerMinusDot (repo fix C12-05): `-.` where a signed number may start
+	for _, op := range []string{"ltoks", "ltree"} {
+		g.Emit("%s g00 s:a s:- d:.f", op)
+		g.Emit("%s g10 s:a s:- d:.f", op)
+		g.Emit("%s g0100 s:x s:= s:- d:.f d:.g", op)
+		g.Emit("%s g000 ( s:- d:.f )", op)
+		g.Emit("%s g0010 s:a s:* s:- d:.k", op)
+	}
+	g.Emit("ltoks g0 s:- n:.5")
+	g.Emit("ltoks g10 s:a s:- n:.5")
+	g.Emit("ltoks g00 s:a s:- n:.5")
+	g.Emit("ltoks g01 s:a s:- n:.5")
+	g.Emit("ltoks g0 s:- d:.")
+	g.Count("minus-dot-probes")
 	g.Emit("ltoks g00 n:1e s:+ n:5")
 	g.Emit("ltoks g00 n:-1e s:+ n:5")
 	g.Emit("ltoks g00 n:2.5e s:- n:3")
